@@ -57,7 +57,7 @@ def _path_name(ex, args, kwargs, lineno):
 def _register_generators():
     import pathlib
     from pyvc import selftest
-    selftest.OPAQUE_GENERATORS["Path"] = lambda g: pathlib.PurePosixPath(g.s() or "x")
+    selftest.OPAQUE_GENERATORS["Path"] = lambda g: pathlib.Path(g.s() or "x")
     selftest.OPAQUE_GENERATORS["Pattern"] = lambda g: _re.compile(_re.escape(g.s()), _re.IGNORECASE)
 
 
